@@ -26,6 +26,7 @@ fn heights_positions(q: &Quantile) -> (Vec<f64>, Vec<i64>) {
 /// the C15 invariants on one state
 fn c15_invariants(out: &mut Out, q: &Quantile, p: f64, seen: &[f64]) {
     let n = seen.len() as u64;
+    out.x(format!("{:?}", q.clone()) == format!("{:?}", q), || "Quantile: clone() differs from the original".to_string());
     out.x(q.len() == n, || format!("len {} after {} observations", q.len(), n));
     out.x(q.is_empty() == (n == 0), || format!("is_empty {} with len {}", q.is_empty(), n));
     out.x(q.p().to_bits() == p.to_bits(), || format!("p() = {:?}, constructed with {:?}", q.p(), p));
